@@ -2,6 +2,7 @@ import Nsq.Model.Line
 import Nsq.Model.ProtoV2
 import Nsq.Model.HttpApi
 import Nsq.Model.HttpFull
+import Nsq.Model.HttpBody
 import Nsq.Model.Identify
 import Nsq.Spec.ProtoSpec
 /-!
@@ -16,6 +17,7 @@ The broker and the tables persist across lines (a case is `reset` followed by op
   iof <conf> <hexstream> <hexid,…>   (the ids are in flight for this connection)
   http <conf> <method> <hexpath> <hexquery> <contentLength|-1> <hexbody> <healthy>
   httpx … (same fields)   whole-table model `HttpFull.serve`: status, headers, kind of body, broker
+  httpb … (same fields; body hex or rep:<hex>:<n>)  audit 7: `serve` status + body bytes read (R now, RO before F33) + broker
   spec <conf> <hexstream>
   name <hex> | b10 <hex> | pint <hex> | query <hex> | mpubtext <maxMsg> <maxBody> <hex>
 -/
@@ -258,6 +260,22 @@ def stepLine (st : DState) (line : String) : DState × String :=
       let r := HttpFull.serve dc.http (b01 healthy) (st.broker cid) rq
       (st.setBroker cid r.2,
        s!"W={HttpApi.showStatus r.1.status} CT={if r.1.ctJson then 1 else 0} X={if r.1.nsqHdr then 1 else 0} K={showBody r.1.body} B={showBroker r.2}")
+    | _, _, _, _ => (st, "bad-op")
+  | ["httpb", cid, method, hp, hq, cl, hb, healthy] =>
+    -- audit round 7 (C10, B16): the whole-table answer plus the number of body bytes the handler reads
+    -- (`R`: current tree, `RO`: the tree before fix F33). Body: hex, or `rep:<hex>:<count>`.
+    let body? : Option Bytes :=
+      match hb.splitOn ":" with
+      | ["rep", h, n] => (unhex h).map (fun c => (List.replicate n.toNat! c).flatten)
+      | _ => unhex hb
+    match st.confs.find? (·.1 == cid), unhex hp, unhex hq, body? with
+    | some (_, dc), some path, some query, some body =>
+      let rq : HttpApi.Request :=
+        { method := Names.ascii method, path := path, rawQuery := query, contentLength := parseInt cl,
+          body := body }
+      let r := HttpFull.serve dc.http (b01 healthy) (st.broker cid) rq
+      (st.setBroker cid r.2,
+       s!"W={HttpApi.showStatus r.1.status} R{HttpBody.showRead (HttpBody.bodyRead dc.http rq)} RO{HttpBody.showRead (HttpBody.bodyReadOld dc.http rq)} B={showBroker r.2}")
     | _, _, _, _ => (st, "bad-op")
   | ["idn", cid, hb, obs, obt, mt, sr, fn, tls, defl, snap, dl, hcid, hhost, hua, hreg, hzone, maxDefl, auth] =>
     match st.confs.find? (·.1 == cid), unhex hcid, unhex hhost, unhex hua, unhex hreg, unhex hzone with
